@@ -621,7 +621,7 @@ func genCase(rt *rapid.T) mgrCase {
 
 func TestManagers(t *testing.T) {
 	sec := vk.Sec("Managers")
-	vk.Check(t, 80000, 1500000, func(rt *rapid.T) {
+	vk.Check(t, 80000, 20000000, func(rt *rapid.T) {
 		c := genCase(rt)
 		nt, cls, err := runMgr(t, c)
 		if err != nil {
